@@ -166,10 +166,21 @@ def _topo(targets):
     return order, cache
 
 
+def _big_stack():
+    """coqc parses large list literals recursively (a 60 000-element distance matrix overflows the default 8 MiB stack):
+    raise the soft stack limit of the child to the hard limit."""
+    try:
+        import resource
+        soft, hard = resource.getrlimit(resource.RLIMIT_STACK)
+        resource.setrlimit(resource.RLIMIT_STACK, (hard, hard))
+    except Exception:  # noqa
+        pass
+
+
 def coqc(vfile, timeout=900, extra=()):
     """Run coqc on one file under a shell-level timeout. Returns (rc, stdout+stderr)."""
     cmd = ["timeout", str(timeout), "coqc", *COQ_ARGS, *extra, str(vfile)]
-    r = subprocess.run(cmd, capture_output=True, text=True, cwd=str(Path(vfile).parent))
+    r = subprocess.run(cmd, capture_output=True, text=True, cwd=str(Path(vfile).parent), preexec_fn=_big_stack)
     return r.returncode, r.stdout + r.stderr
 
 
@@ -354,6 +365,25 @@ Open Scope Z_scope.
 
 
 def coq_eval(workdir, name, preamble, exprs, shard=300, timeout=600, jobs=None):
+    """Evaluate `exprs` with vm_compute inside Coq (see _coq_eval_once).  Expressions whose shard produced nothing (a shard
+    that ran out of time on a loaded machine, an oversized literal) are evaluated once more in much smaller shards with
+    twice the time before they are given up as None: a failure of the machinery must not look like a disagreement."""
+    results, log = _coq_eval_once(workdir, name, preamble, exprs, shard, timeout, jobs)
+    missing = [k for k, v in enumerate(results) if v is None]
+    if missing and len(missing) < len(exprs) or (missing and len(exprs) <= shard):
+        sub, log2 = _coq_eval_once(workdir, name + "_retry", preamble, [exprs[k] for k in missing],
+                                   max(1, min(shard // 8, 25)), 2 * timeout, jobs)
+        for k, v in zip(missing, sub):
+            results[k] = v
+        still = sum(1 for v in sub if v is None)
+        log = (log + "\n" if log else "") + f"retried {len(missing)} expressions in small shards: {len(missing) - still} recovered" \
+            + (("\n" + log2) if still and log2 else "")
+        if not still:
+            log = ""
+    return results, log
+
+
+def _coq_eval_once(workdir, name, preamble, exprs, shard=300, timeout=600, jobs=None):
     """Evaluate `exprs` (Coq terms as strings) with vm_compute inside Coq.
 
     Each expression is evaluated by its own `Eval vm_compute in (k, expr).`; returns a list of
